@@ -4,7 +4,12 @@
    IPC outcome, for EVERY behaviour of the IPC layer and of the message codecs (Section variables).
    What is a theorem: no handler of the repaired code can panic (the only way a Go handler drops the
    connection without a response), the status set, and legacy == versioned. Framing of the response by
-   net/http, MaxBytesReader and bounded time are observed by the raw-TCP driver, not proved. *)
+   net/http, MaxBytesReader and bounded time are observed by the raw-TCP driver, not proved.
+   Second half (from C14_no_request_panics on): the refined model - requests with method, path, header lines
+   and body; the http.ResponseWriter; every index / slice / WriteHeader as a step that may panic; the routes of
+   main() with /debug, /metrics, /prometheus, /robots.txt and the mux's own answers; the broker state threaded
+   through the IPC calls. Concurrency (requests overlapping in time) and the http.Server of main() are not in
+   the model: they are observed (soak in a child process, the broker binary over TCP). *)
 From Coq Require Import List NArith Bool String.
 From Snow Require Import Lib.Wire Model.BrokerHttp Proofs.BrokerHttpProofs.
 Import ListNotations.
@@ -68,3 +73,150 @@ Example C14_nonvacuous :
   client_offers enc dec ipc H0 (ReadOk (bs "{x}")) [] = HPanic /\
   client_offers enc dec ipc H1 (ReadOk (bs "{x}")) [] = HResp 400 [].
 Proof. repeat split. Qed.
+
+(* ===================== the refined model: partial operations, routes, broker state ===================== *)
+
+(* no request - any method, path, header lines, body - makes a handler of the repaired code panic, whatever the
+   IPC layer and the codecs return: every body[0] is behind its length test, every path[n:] behind HasPrefix,
+   every WriteHeader code within 100..999 *)
+Theorem C14_no_request_panics :
+  forall (St : Type) view enc_req dec_resp enc_err amp_dec amp_arm (ipc_client ipc_proxy ipc_answer : St -> bytes -> ipcres * St) r s q,
+  fst (handle St view enc_req dec_resp enc_err amp_dec amp_arm ipc_client ipc_proxy ipc_answer H1 r s q) <> Panicked /\
+  fst (serve_req St view enc_req dec_resp enc_err amp_dec amp_arm ipc_client ipc_proxy ipc_answer H1 s q) <> Panicked.
+Proof. exact serve_never_panics_v1. Qed.
+
+Theorem C14_v0_request_panics :
+  forall (St : Type) view enc_req dec_resp enc_err amp_dec amp_arm (ipc_client ipc_proxy ipc_answer : St -> bytes -> ipcres * St) s q offer r s',
+  route_of (q_path q) = RClient -> beq (q_method q) OPTIONS = false ->
+  read_body (q_sent q) = ReadOk offer -> is_legacy offer = true ->
+  ipc_client s (enc_req offer (header_get (q_hdrs q) NAT_HEADER)) = (IpcOk r, s') ->
+  dec_resp r = Some {| r_answer := []; r_error := bs "invalid NAT type" |} ->
+  fst (serve_req St view enc_req dec_resp enc_err amp_dec amp_arm ipc_client ipc_proxy ipc_answer H0 s q) = Panicked.
+Proof. exact serve_v0_panics. Qed.
+
+(* the mux hands ampClientOffers only paths that start with /amp/client/ ... *)
+Theorem C14_mux_amp_prefix : forall p, route_of p = RAmp -> exists t, p = AMP_ROUTE_B ++ t.
+Proof. exact route_amp_prefix. Qed.
+
+(* ... and a path without the prefix (the handler called directly) is answered 500 without touching the state *)
+Theorem C14_amp_wrong_prefix :
+  forall (St : Type) enc_err amp_dec amp_arm (ipc_client : St -> bytes -> ipcres * St) s q w,
+  has_prefix AMP_ROUTE_B (q_path q) = false ->
+  amp_w St enc_err amp_dec amp_arm ipc_client s q w = wstatus St 500 w s.
+Proof. exact amp_wrong_prefix. Qed.
+
+(* CORS preflight on every wrapped route: empty 200 with the CORS headers, state untouched *)
+Theorem C14_options_preflight :
+  forall (St : Type) view enc_req dec_resp enc_err amp_dec amp_arm (ipc_client ipc_proxy ipc_answer : St -> bytes -> ipcres * St) v r s q,
+  wrapped r = true -> q_method q = OPTIONS ->
+  handle St view enc_req dec_resp enc_err amp_dec amp_arm ipc_client ipc_proxy ipc_answer v r s q = (Ret (set_cors rw_new), s) /\
+  respond q (Ret (set_cors rw_new)) = Ret {| p_status := 200; p_body := []; p_cors := true |}.
+Proof. exact options_early_return. Qed.
+
+(* a body beyond 100000 bytes: 400 on /proxy, /client and /answer, state untouched *)
+Theorem C14_oversize_400 :
+  forall (St : Type) view enc_req dec_resp enc_err amp_dec amp_arm (ipc_client ipc_proxy ipc_answer : St -> bytes -> ipcres * St) v r s q,
+  (r = RProxy \/ r = RClient \/ r = RAnswer) ->
+  beq (q_method q) OPTIONS = false -> READ_LIMIT_N < N.of_nat (List.length (q_sent q)) ->
+  handle St view enc_req dec_resp enc_err amp_dec amp_arm ipc_client ipc_proxy ipc_answer v r s q =
+    (Ret {| w_code := Some 400; w_body := []; w_cors := true |}, s).
+Proof. exact oversize_is_400. Qed.
+
+(* handlers change the broker state through IPC only: a request that does not get as far as an IPC call
+   (preflight, oversize body, undecodable AMP path, unknown route, /debug, /metrics, /prometheus, /robots.txt)
+   leaves the state as it was ... *)
+Theorem C14_state_only_through_ipc :
+  forall (St : Type) view enc_req dec_resp enc_err amp_dec amp_arm (ipc_client ipc_proxy ipc_answer : St -> bytes -> ipcres * St) v s q,
+  reaches_ipc amp_dec q = false ->
+  snd (serve_req St view enc_req dec_resp enc_err amp_dec amp_arm ipc_client ipc_proxy ipc_answer v s q) = s.
+Proof. exact no_ipc_state_unchanged. Qed.
+
+(* ... and one that does leaves exactly the state its IPC call leaves *)
+Theorem C14_state_is_ipc_state :
+  forall (St : Type) view enc_req dec_resp enc_err amp_dec amp_arm (ipc_client ipc_proxy ipc_answer : St -> bytes -> ipcres * St) v s q,
+  reaches_ipc amp_dec q = true ->
+  exists ipc body, In ipc [ipc_client; ipc_proxy; ipc_answer] /\
+    snd (serve_req St view enc_req dec_resp enc_err amp_dec amp_arm ipc_client ipc_proxy ipc_answer v s q) = snd (ipc s body).
+Proof. exact ipc_state. Qed.
+
+(* histories: removing any set of such requests from a request sequence changes no other response *)
+Theorem C14_history_unaffected :
+  forall (St : Type) view enc_req dec_resp enc_err amp_dec amp_arm (ipc_client ipc_proxy ipc_answer : St -> bytes -> ipcres * St) v
+         (drop : hreq -> bool),
+  (forall q, drop q = true -> reaches_ipc amp_dec q = false) ->
+  forall qs s,
+    filter (fun p => negb (drop (fst p))) (run_reqs St view enc_req dec_resp enc_err amp_dec amp_arm ipc_client ipc_proxy ipc_answer v s qs) =
+    run_reqs St view enc_req dec_resp enc_err amp_dec amp_arm ipc_client ipc_proxy ipc_answer v s (filter (fun q => negb (drop q)) qs).
+Proof. exact history_drop. Qed.
+
+Theorem C14_malformed_prefix_invisible :
+  forall (St : Type) view enc_req dec_resp enc_err amp_dec amp_arm (ipc_client ipc_proxy ipc_answer : St -> bytes -> ipcres * St) v pre s q,
+  Forall (fun p => reaches_ipc amp_dec p = false) pre ->
+  fst (serve_req St view enc_req dec_resp enc_err amp_dec amp_arm ipc_client ipc_proxy ipc_answer v s q) =
+  match last (run_reqs St view enc_req dec_resp enc_err amp_dec amp_arm ipc_client ipc_proxy ipc_answer v s (pre ++ [q])) (q, Panicked) with (_, o) => o end.
+Proof. exact malformed_prefix_invisible. Qed.
+
+(* the refined client handler computes the total function the first half of this file is about *)
+Theorem C14_client_refines :
+  forall (St : Type) enc_req dec_resp (ipc_client : St -> bytes -> ipcres * St) v s q,
+  hresp_of (fst (client_offers_w St enc_req dec_resp ipc_client v s q (set_cors rw_new))) =
+  client_offers enc_req dec_resp (fun b => fst (ipc_client s b)) v (read_body (q_sent q)) (header_get (q_hdrs q) NAT_HEADER).
+Proof. exact client_offers_refines. Qed.
+
+(* legacy == versioned at the level of whole requests: the legacy request and the versioned POST of the shimmed
+   body make the same IPC call and leave the same broker state; the legacy response is the image of the other *)
+Theorem C14_legacy_twin :
+  forall (St : Type) view enc_req dec_resp enc_err amp_dec amp_arm (ipc_client ipc_proxy ipc_answer : St -> bytes -> ipcres * St),
+  (forall o n, is_legacy (enc_req o n) = false) ->
+  (forall o n, N.of_nat (List.length (enc_req o n)) <= READ_LIMIT_N) ->
+  forall v s q q' offer,
+  route_of (q_path q) = RClient -> route_of (q_path q') = RClient ->
+  beq (q_method q) OPTIONS = false -> beq (q_method q') OPTIONS = false ->
+  read_body (q_sent q) = ReadOk offer -> is_legacy offer = true ->
+  q_sent q' = enc_req offer (header_get (q_hdrs q) NAT_HEADER) ->
+  snd (serve_req St view enc_req dec_resp enc_err amp_dec amp_arm ipc_client ipc_proxy ipc_answer v s q) =
+  snd (serve_req St view enc_req dec_resp enc_err amp_dec amp_arm ipc_client ipc_proxy ipc_answer v s q') /\
+  hresp_of (fst (handle St view enc_req dec_resp enc_err amp_dec amp_arm ipc_client ipc_proxy ipc_answer v RClient s q)) =
+    match hresp_of (fst (handle St view enc_req dec_resp enc_err amp_dec amp_arm ipc_client ipc_proxy ipc_answer v RClient s q')) with
+    | HResp 200 response => legacy_map dec_resp v response
+    | other => other
+    end.
+Proof. exact legacy_twin_same_state. Qed.
+
+(* the NAT type is found under any spelling of the header name with the same canonical form; the first line wins *)
+Theorem C14_header_spelling : forall lines k1 k2, canon_key k1 = canon_key k2 -> header_get lines k1 = header_get lines k2.
+Proof. exact header_get_spelling. Qed.
+
+Theorem C14_header_first_wins : forall k v rest key, canon_key k = canon_key key -> header_get ((k, v) :: rest) key = trim_ows v.
+Proof. exact header_get_first. Qed.
+
+(* non-vacuity: a concrete broker state (the list of registered proxies), an IPC layer that registers a proxy on a
+   well-formed poll, and a history in which malformed requests are interleaved *)
+Example C14_history_nonvacuous :
+  let St := list (bytes * bytes) in
+  let view := fun s : St => {| v_snowflakes := s; v_metrics := None; v_prom := bs "# TYPE x counter" |} in
+  let ipc_proxy := fun (s : St) (b : bytes) => if beq b (bs "poll") then (IpcOk (bs "{}"), (bs "standalone", bs "restricted") :: s) else (IpcBadRequest, s) in
+  let ipc_other := fun (s : St) (b : bytes) => (IpcOk b, s) in
+  let amp_dec := fun p : bytes => if beq p (bs "0/x") then Some (bs "x") else None in
+  let rq := fun m p b : bytes => {| q_method := m; q_path := p; q_hdrs := [(bs "snowflake-nat-type", bs " unknown ")]; q_sent := b |} in
+  let good := [rq (bs "POST") (bs "/proxy") (bs "poll"); rq (bs "GET") (bs "/debug") (bs "")] in
+  let bad := [rq (bs "OPTIONS") (bs "/proxy") (bs "poll"); rq (bs "GET") (bs "/amp/client/1") (bs ""); rq (bs "POST") (bs "/nosuch") (bs "poll"); rq (bs "GET") (bs "/metrics") (bs "")] in
+  let run := run_reqs St view (fun o n => 49 :: o) (fun _ => None) (fun e => e) amp_dec (fun b => b) ipc_other ipc_proxy ipc_other H1 [] in
+  forallb (fun q => negb (reaches_ipc amp_dec q)) bad = true /\
+  reaches_ipc amp_dec (rq (bs "POST") (bs "/proxy") (bs "poll")) = true /\
+  header_get [(bs "snowflake-nat-type", bs " unknown ")] NAT_HEADER = bs "unknown" /\
+  map snd (run good) =
+    [Ret {| p_status := 200; p_body := bs "{}"; p_cors := true |};
+     Ret {| p_status := 200; p_body := debug_body [(bs "standalone", bs "restricted")]; p_cors := true |}] /\
+  map snd (filter (fun p => reaches_ipc amp_dec (fst p) || beq (q_path (fst p)) (bs "/debug"))
+                  (run (bad ++ [rq (bs "POST") (bs "/proxy") (bs "poll")] ++ bad ++ [rq (bs "GET") (bs "/debug") (bs "")] ++ bad))) = map snd (run good).
+Proof. vm_compute. repeat split. Qed.
+
+Example C14_v0_request_panics_ex :
+  let St := unit in
+  let q := {| q_method := bs "POST"; q_path := bs "/client"; q_hdrs := [(bs "Snowflake-NAT-Type", bs "bogus")]; q_sent := bs "{x}" |} in
+  let srv := serve_req St (fun _ => {| v_snowflakes := []; v_metrics := None; v_prom := [] |}) (fun o n => bs "1.0" ++ [10] ++ n)
+               (fun r => Some {| r_answer := []; r_error := r |}) (fun e => e) (fun _ => None) (fun b => b)
+               (fun s b => (IpcOk (bs "invalid NAT type"), s)) (fun s b => (IpcBadRequest, s)) (fun s b => (IpcBadRequest, s)) in
+  fst (srv H0 tt q) = Panicked /\ fst (srv H1 tt q) = Ret {| p_status := 400; p_body := []; p_cors := true |}.
+Proof. vm_compute. repeat split. Qed.
